@@ -91,9 +91,15 @@ def run_c15(ctx, replay):
 
     def mutate(e, rnd):
         if e["k"] == "typed":
-            e["viaraw"] = e["viaraw"] + " "
+            if e["derr"] and e["rerr"]:
+                e["rerr"] = False      # both ways failed: a canary must break the agreement, the values do not count here
+            else:
+                e["viaraw"] = e["viaraw"] + " "
             return e
-        ch = rnd.randrange(4)
+        ch = rnd.randrange(5)
+        if ch == 4 and e.get("reused"):
+            e["reused"][0]["name"] = e["reused"][0]["name"] + "x"
+            return e
         if ch == 0 and e["marshal"]:
             e["marshal"][0]["ns"] = e["marshal"][0]["ns"] + "x"
         elif ch == 1 and e["second"] and e["second"][0]["kids"]:
